@@ -5,6 +5,7 @@ import (
 	"fmt"
 	"io"
 	"log/slog"
+	mbits "math/bits"
 	"net/http"
 	"os"
 	"path/filepath"
@@ -209,12 +210,15 @@ func (r *Receiver) SegmentHandlerFunc(w http.ResponseWriter, req *http.Request) 
 				t := int64(inTime)
 				if rsd.shouldBeShifted {
 					if masterTimeShift != 0 {
+						// The products do not fit in int64 for epoch-based times (e.g. 90 kHz after 2006)
 						if masterTimescale != trd.timeScaleIn {
-							t = t * int64(masterTimescale) / int64(trd.timeScaleIn)
+							t = mulDiv(t, masterTimescale, trd.timeScaleIn)
 						}
 						t += masterTimeShift
 						rsd.isShifted = true
-						t = t * int64(trd.timeScaleIn) / int64(masterTimescale)
+						if masterTimescale != trd.timeScaleIn {
+							t = mulDiv(t, trd.timeScaleIn, masterTimescale)
+						}
 					}
 					segDur := int64(masterSegDur) * int64(trd.timeScaleIn) / int64(masterTimescale)
 					rsd.seqNr = uint32((t+segDur/2)/segDur) - uint32(ch.startNr)
@@ -536,4 +540,19 @@ func removeOldSegments(log *slog.Logger, trDir, ext string, rsd *recSegData, sta
 			}
 		}
 	}
+}
+
+// mulDiv returns t*num/den, calculated with a 128-bit product when t is not negative.
+func mulDiv(t int64, num, den uint32) int64 {
+	if den == 0 {
+		return t // Timescales of registered tracks are never zero
+	}
+	if t >= 0 {
+		hi, lo := mbits.Mul64(uint64(t), uint64(num))
+		if hi < uint64(den) { // The quotient fits
+			q, _ := mbits.Div64(hi, lo, uint64(den))
+			return int64(q)
+		}
+	}
+	return t * int64(num) / int64(den)
 }
